@@ -82,7 +82,7 @@ and runs the quick check of every property anchored in the touched packages.
 
 First run (machinery as of round 3): 12 of 21 raised no alarm; 9 raised `no-failing-input-found` for at least one
 property (translator facts keyed on spelling, section 10); none raised a correspondence mismatch that was a real
-behaviour difference — and the escalation triggered by four of them found the genuine defect F27. After the
+behaviour difference — and the escalation triggered by five of them found the genuine defect F27. After the
 translator changes of section 3a the result is:
 
 {btable}
